@@ -500,7 +500,7 @@ func mOsOpen(name string) (*os.File, error) {
 	// symbolic links before "..", so "/d/link/../wplugin" and the lexically cleaned "/d/wplugin" are different entries)
 	d, ok := wRegular[name]
 	if !ok {
-		return nil, errors.New("open " + name + ": no such file or directory")
+		return nil, &os.PathError{Op: "open", Path: name, Err: os.ErrNotExist}
 	}
 	f := new(os.File)
 	wOpenedDigest[f] = d
